@@ -29,6 +29,9 @@ Inductive case :=
 | CSeq (input : tree) (prefix : list (list nat * opk)) (mid : tree) (path : list nat) (o : opk) (impl : obs)
        (* several rewrites in a row on the same objects: [prefix] ran without error and gave [mid] (as observed), then
           [o] at [path] gave [impl] *)
+| CSpecOnly (input : tree) (path : list nat) (o : opk) (impl : obs)
+       (* programs with volatile repetition counts: the model does not cover them (its split/merge decisions look at plain
+          integers), so only the specification is evaluated on the implementation's observation *)
 | CToWf (input : tree) (impl : result wf)
 | CSfg (n m : Z) (impl : result Z)
 | CCrash.
@@ -136,6 +139,7 @@ Definition check_corr (c : case) : bool :=
       | Ok m => tree_eqb m mid && corr_step m path o impl
       | Err _ => false
       end
+  | CSpecOnly _ _ _ _ => true
   | CToWf input impl => result_wf_eqb (to_waveform input) impl
   | CSfg n m impl => result_Z_eqb (smallest_factor_ge n m) impl
   | CCrash => false
@@ -208,6 +212,7 @@ Definition check_spec (c : case) : bool :=
   | CSeq input prefix mid path o impl =>
       pieces_equivb (pieces mid) (pieces input) && Qeq_bool (duration mid) (duration input)
       && spec_step mid path o impl
+  | CSpecOnly input path o impl => spec_step input path o impl
   | CToWf input impl =>
       match impl with
       | Ok x => pieces_equivb (wf_pieces x) (pieces input) && Qeq_bool (wf_dur x) (duration input)
